@@ -200,18 +200,18 @@ def main(tier, seed, replay):
     V.coverage['tsan_reports_library'] = reports
 
     # ---------------------------------------------------------------- gwb-grid
-    ngrids = 6 if quick else 40
+    ngrids = 9 if quick else 45
     js = [1, 2, 3, 5, 7, 8, 16, 33, 40]
     gruns = []
     for i in range(ngrids):
         grng = random.Random(rng.getrandbits(48))
         r = gen_run(grng, 1000 + i, workdir)
         # node counts: prime / tiny / large
-        mode = i % 3
+        mode = (0, 1, 0, 2, 0, 1, 0, 2, 0)[i % 9]
         sp = r['spec']
         if sp['grid_type'] in ('cartesian', 'chunk'):
             if mode == 0:
-                sp['n_cell_x'], sp['n_cell_y'], sp['n_cell_z'] = grng.choice([(1, 1, 1), (2, 1, 1), (1, 1, 2)])
+                sp['n_cell_x'], sp['n_cell_y'], sp['n_cell_z'] = grng.choice([(1, 1, 1), (2, 1, 1), (1, 1, 2), (2, 2, 2), (3, 1, 2), (4, 1, 3), (2, 1, 2)])
             elif mode == 1:
                 sp['n_cell_x'], sp['n_cell_y'], sp['n_cell_z'] = grng.choice([(12, 1, 6), (10, 2, 4), (6, 6, 6)])
             else:
@@ -220,45 +220,64 @@ def main(tier, seed, replay):
             with open(os.path.join(r['dir'], 'grid.grid'), 'w') as f:
                 f.write(grid_text(grng, sp))
         gruns.append(r)
-    tool_jobs = []
-    for r in gruns:
-        for flavour in (('tsan', 'asan') if not quick else ('tsan',)):
-            for j in (js if not quick else [1, 2, 3, 7, 16, 40]):
-                d = os.path.join(r['dir'], '%s_j%d' % (flavour, j))
-                os.makedirs(d)
-                shutil.copy(os.path.join(r['dir'], 'world.wb'), d)
-                shutil.copy(os.path.join(r['dir'], 'grid.grid'), d)
-                tool_jobs.append((r, flavour, j, d))
-    with concurrent.futures.ThreadPoolExecutor(max_workers=4) as ex:
-        outs = list(ex.map(run_tool, [(core.exe(fl, 'gwb-grid'), ['-j', str(j), '--filtered', '--by-tag', 'world.wb', 'grid.grid'], d, fl, os.path.join(d, 'tsan.log')) for (r, fl, j, d) in tool_jobs]))
     ref = {}
-    for (r, fl, j, d), (rc, err) in zip(tool_jobs, outs):
-        V.count()
-        base = {'dir': d, 'spec': r['spec'], 'flavour': fl, 'j': j, 'rc': rc, 'stderr_tail': err[-400:]}
-        ttext = ''
-        for name in os.listdir(d):
-            if name.startswith('tsan.log'):
-                with open(os.path.join(d, name), errors='replace') as f:
-                    ttext += f.read()
-        for key, n in dedupe_tsan(ttext + (err if fl == 'tsan' else '')).items():
-            V.violation('tsan:gwb-grid:' + key, dict(base, count=n, log_excerpt=(ttext + err)[:3000]))
-        if rc == 'timeout':
-            V.violation('gwb-grid-hangs', base)
+
+    def wave(tool_jobs):
+        for (r, fl, j, d) in tool_jobs:
+            os.makedirs(d)
+            shutil.copy(os.path.join(r['dir'], 'world.wb'), d)
+            shutil.copy(os.path.join(r['dir'], 'grid.grid'), d)
+        with concurrent.futures.ThreadPoolExecutor(max_workers=4) as ex:
+            outs = list(ex.map(run_tool, [(core.exe(fl, 'gwb-grid'), ['-j', str(j), '--filtered', '--by-tag', 'world.wb', 'grid.grid'], d, fl, os.path.join(d, 'tsan.log')) for (r, fl, j, d) in tool_jobs]))
+        for (r, fl, j, d), (rc, err) in zip(tool_jobs, outs):
+            V.count()
+            base = {'dir': d, 'spec': r['spec'], 'flavour': fl, 'j': j, 'rc': rc, 'stderr_tail': err[-400:], 'nodes': r.get('nodes')}
+            ttext = ''
+            for name in os.listdir(d):
+                if name.startswith('tsan.log'):
+                    with open(os.path.join(d, name), errors='replace') as f:
+                        ttext += f.read()
+            for key, n in dedupe_tsan(ttext + (err if fl == 'tsan' else '')).items():
+                V.violation('tsan:gwb-grid:' + key, dict(base, count=n, log_excerpt=(ttext + err)[:3000]))
+            if rc == 'timeout':
+                V.violation('gwb-grid-hangs', base)
+                continue
+            digest = {}
+            for name in sorted(os.listdir(d)):
+                if name.endswith('.vtu'):
+                    with open(os.path.join(d, name), 'rb') as f:
+                        data = f.read()
+                    digest[name] = hashlib.sha256(data).hexdigest()
+                    if j == 1 and name == 'world.vtu' and b'NumberOfPoints="' in data:
+                        r['nodes'] = int(data.split(b'NumberOfPoints="')[1].split(b'"')[0])
+            key = (r['i'], fl)
+            if j == 1:
+                ref[key] = (rc, digest)
+                continue
+            if key not in ref:
+                continue
+            if (rc, digest) != ref[key]:
+                V.violation('gwb-grid-output-depends-on-the-thread-count', dict(base, files=sorted(digest), reference_files=sorted(ref[key][1]), reference_rc=ref[key][0]))
+            elif digest:
+                V.nontrivial(('grid', r['i'], fl, j))
+        return len(tool_jobs)
+    flavours = ('tsan', 'asan') if not quick else ('tsan',)
+    nruns = wave([(r, fl, j, os.path.join(r['dir'], '%s_j%d' % (fl, j))) for r in gruns for fl in flavours for j in (js if not quick else [1, 2, 3, 7, 16, 40])])
+    # second wave: thread counts chosen relative to the node count n of the small grids (n-1, n, n+1: one node per thread, idle threads;
+    # around (n+1)/2: the left-over slice of the last thread holds one node or none)
+    second = []
+    rel = {}
+    for r in gruns:
+        n = r.get('nodes')
+        if not n or n > 100:
             continue
-        digest = {}
-        for name in sorted(os.listdir(d)):
-            if name.endswith('.vtu'):
-                with open(os.path.join(d, name), 'rb') as f:
-                    digest[name] = hashlib.sha256(f.read()).hexdigest()
-        key = (r['i'], fl)
-        if j == 1:
-            ref[key] = (rc, digest)
-            continue
-        if key not in ref:
-            continue
-        if (rc, digest) != ref[key]:
-            V.violation('gwb-grid-output-depends-on-the-thread-count', dict(base, files=sorted(digest), reference_files=sorted(ref[key][1]), reference_rc=ref[key][0]))
-        elif digest:
-            V.nontrivial(('grid', r['i'], fl, j))
+        cand = sorted(set(j for j in (n - 1, n, n + 1, n // 2, (n + 1) // 2, (n + 1) // 2 + 1, n // 3 + 1) if 2 <= j <= 128) - set(js))
+        rel[r['i']] = (n, cand)
+        for fl in flavours:
+            for j in cand:
+                second.append((r, fl, j, os.path.join(r['dir'], '%s_j%d' % (fl, j))))
+    nruns += wave(second)
+    V.coverage['thread_counts_relative_to_node_count'] = [{'nodes': n, 'j': c} for (n, c) in list(rel.values())[:6]]
+    tool_jobs = list(range(nruns))
     V.coverage['gwb_grid_runs'] = len(tool_jobs)
     return V.finish(floor_nontrivial=40 if quick else 400, floor_evaluations=20000)
